@@ -390,6 +390,7 @@ func (dsc *dataStoreCommand) getKeySetExpiration(keyName string, expiration time
 		if strBytes != nil {
 			val = string(strBytes)
 			sk.expiresAt = expiration
+			dsc.setDirty()
 		} else {
 			exists = VALUE_WRONG_TYPE
 		}
@@ -849,6 +850,7 @@ func (dsc *dataStoreCommand) del(keyNames []string, reclaim bool) (output respVa
 				dsc.ds.data.remove(keyName)
 			} else {
 				sk.expiresAt = minTime
+				dsc.setDirty()
 			}
 		} else if reclaim {
 			// remove expired now (if it exists)
@@ -1000,6 +1002,7 @@ func (dsc *dataStoreCommand) expire(keyName string, expiration time.Time, nx, xx
 	}
 
 	sk.expiresAt = expiration
+	dsc.setDirty()
 	output.data = respInt(1)
 	return
 }
@@ -1033,6 +1036,7 @@ func (dsc *dataStoreCommand) persist(keyName string) (output respValue) {
 		return
 	}
 	sk.expiresAt = maxTime
+	dsc.setDirty()
 	output.data = respInt(1)
 	return
 }
@@ -1865,6 +1869,7 @@ func (dsc *dataStoreCommand) lset(keyName string, element string, count int) (ou
 	}
 
 	item.element = []byte(element)
+	dsc.setDirty()
 	output.data = rstrOK
 	return
 }
@@ -2165,6 +2170,7 @@ func (dsc *dataStoreCommand) fieldAddFloat(keyName, fieldName string, delta floa
 	}
 
 	m.store(fieldName, strconv.FormatFloat(value, 'f', -1, 64))
+	dsc.setDirty()
 	return
 }
 
